@@ -8,6 +8,7 @@ import os
 import random as _random
 import shutil
 import tempfile
+import zlib
 
 from ..core import Tally  # noqa: F401
 from .. import s2c, tlc
@@ -171,12 +172,24 @@ class Ctx:
             return self.BFD(os.path.join(self.tmp, f"f{self.seq}.blm"), est_elements=est, false_positive_rate=fpr, hash_function=hf)
         return self.BF(est_elements=est, false_positive_rate=fpr, hash_function=hf)
 
+    def alt(self, o):
+        """one model action, two entry points of the code: add(key) or add_alt(hashes(key)) (same for remove / check), chosen
+        deterministically from the position in the edge, so that a replay makes the same choices"""
+        self.opno = getattr(self, "opno", 0) + 1
+        return bool(zlib.crc32(repr((self.opno, o)).encode()) & 1)
+
     def apply(self, objs, o):
         f = objs[o[1]]
         if o[0] == "add":
-            return f.add(self.rk(o[2]), o[3]) if self.counting else f.add(self.rk(o[2]))
+            key = self.rk(o[2])
+            if self.alt(o):
+                return f.add_alt(f.hashes(key), o[3]) if self.counting else f.add_alt(f.hashes(key))
+            return f.add(key, o[3]) if self.counting else f.add(key)
         if o[0] == "rem":
-            return f.remove(self.rk(o[2]), o[3])
+            key = self.rk(o[2])
+            if self.alt(o):
+                return f.remove_alt(f.hashes(key), o[3])
+            return f.remove(key, o[3])
         if o[0] == "clear":
             return f.clear()
         if o[0] == "rt":
@@ -211,11 +224,12 @@ class Ctx:
         return {
             "cells": self.cells(f),
             "n": f.elements_added,
-            "est": {k: int(f.check(self.rk(k))) for k in self.keys},
+            "est": {k: int(f.check_alt(f.hashes(self.rk(k))) if self.alt(k) else f.check(self.rk(k))) for k in self.keys},
             "in": {k: bool(self.rk(k) in f) for k in self.keys},
         }
 
     def build(self, table, hist):
+        self.opno = 0
         hf = strategy_fn(self.strategy) if self.strategy else make_hash(table)
         if self.strategy == "fnv":
             hf = None  # the library default
